@@ -463,6 +463,19 @@ pub struct CompositionGraph {
     type_check_cache: HashSet<(ItemKind, ItemKind)>,
 }
 
+/// Finds the entry of a name map that `name` conflicts with.
+///
+/// The import names and the export names of a component must be unique
+/// case-insensitively: `foo` and `FOO` are the same kebab label.
+fn find_extern_name<'a, V, M>(map: M, name: &str) -> Option<(&'a String, &'a V)>
+where
+    M: IntoIterator<Item = (&'a String, &'a V)>,
+    V: 'a,
+{
+    map.into_iter()
+        .find(|(existing, _)| existing.eq_ignore_ascii_case(name))
+}
+
 impl CompositionGraph {
     /// Creates a new composition graph.
     pub fn new() -> Self {
@@ -665,8 +678,10 @@ impl CompositionGraph {
         }
 
         let name = name.into();
-        if self.exports.contains_key(&name) {
-            return Err(DefineTypeError::ExportConflict { name });
+        if let Some((existing, _)) = find_extern_name(&self.exports, &name) {
+            return Err(DefineTypeError::ExportConflict {
+                name: existing.clone(),
+            });
         }
 
         // Ensure that the given name is a valid extern name
@@ -781,10 +796,10 @@ impl CompositionGraph {
                 verif::js(&name)
             ));
         }
-        if let Some(existing) = self.imports.get(&name) {
+        if let Some((existing, node)) = find_extern_name(&self.imports, &name) {
             return Err(ImportError::ImportAlreadyExists {
-                name,
-                node: NodeId(*existing),
+                name: existing.clone(),
+                node: NodeId(*node),
             });
         }
 
@@ -1039,10 +1054,10 @@ impl CompositionGraph {
                 verif::js(&name)
             ));
         }
-        if let Some(existing) = self.exports.get(&name) {
+        if let Some((existing, node)) = find_extern_name(&self.exports, &name) {
             return Err(ExportError::ExportAlreadyExists {
-                name,
-                node: NodeId(*existing),
+                name: existing.clone(),
+                node: NodeId(*node),
             });
         }
 
